@@ -25,7 +25,7 @@ LEVEL_NOTE = ('Trusts the model and the independent record decoder. One corner h
 ASSUMPTIONS = ['undo of a non-current un-creation: no verdict', 'after a pack the model is re-read from the storage iterator']
 REQUIRED_COUNTERS = ('undo_accepted', 'undo_refused', 'battery_queries', 'refusal_byte_identity_checks', 'db_visibility_probes')
 
-OPS = ['store'] * 5 + ['multi'] * 2 + ['undo'] * 6 + ['undo2'] * 2 + ['undo3', 'delete', 'restore', 'reopen', 'pack']
+OPS = ['store'] * 5 + ['multi'] * 2 + ['undo'] * 6 + ['undo2'] * 2 + ['undo3', 'delete', 'restore', 'reopen', 'pack', 'resolved']
 
 
 def shards(tier, seed):
@@ -166,6 +166,8 @@ def run_case(sh, s, d, case):
                 packed_T = max(packed_T or eff, eff)
                 dr.features.add('pack')
                 continue
+            if k == 'resolved' and packed_T is not None:
+                continue        # the base revision of a stale writer may have been packed away: a refusal is then legitimate
             if k.startswith('undo'):
                 with open(path, 'rb') as fh:
                     pre_bytes = fh.read()
